@@ -3,6 +3,7 @@
 #pragma once
 #include "common/monitor.hpp"
 #include "common/iface.hpp"
+#include "common/routes.hpp"
 #include "common/iface_opt.hpp"
 #include "common/oracle.hpp"
 #include "common/gen.hpp"
@@ -303,7 +304,7 @@ inline VectorXd genDecisionVector(Rng &r, const OptCase &oc, const OptRig &rig, 
 // already used) optimizer that was assigned from it.  Returns the name of the route.
 inline const char *routeViaCopy(Rng &r, OptRig &rig)
 {
-    int k = r.range(0, 9);
+    int k = r.range(0, 11);
     if (k < 6)
         return "direct";
     if (k < 8)
@@ -311,7 +312,18 @@ inline const char *routeViaCopy(Rng &r, OptRig &rig)
         rig.opt = rig.opt->clone();
         return "copy_constructed";
     }
+    if (k == 10)
+    {
+        rig.opt = rig.opt->cloneByMove();
+        return "constructed_from_rvalue";
+    }
     auto other = rig.env->makeOptimizer();
+    if (k == 11)
+    {
+        other->assignFromMoved(*rig.opt);
+        rig.opt = std::move(other);
+        return "assigned_from_rvalue";
+    }
     if (k == 9)
     {
         // the target has a life of its own before it is assigned to
